@@ -165,6 +165,8 @@ type C01Case struct {
 	W     wm.W         `json:"w"`      // the logical value
 	WWire wm.W         `json:"w_wire"` // the same value in a shuffled wire order (input of the deserializers)
 	Plan  chunkio.Plan `json:"plan"`
+	// NilEmpty: empty required lists are handed to the serializers as nil slices
+	NilEmpty bool `json:"nil_empty,omitempty"`
 }
 
 func encodeBoth(c Codec) (streamBytes, valueBytes []byte, streamErr, valueErr error) {
@@ -194,7 +196,9 @@ func checkC01(c C01Case) error {
 	cls := t.Class()
 
 	// (a) both serializers
+	NilEmptyRequiredLists = c.NilEmpty
 	ptr, err := t.New(c.W)
+	NilEmptyRequiredLists = false
 	if err != nil {
 		return ev.Errf("driver/build", "%v", err)
 	}
@@ -316,7 +320,7 @@ func C01(t *testing.T) {
 	rapid.Check(t, func(rt *rapid.T) {
 		tg := drawTarget(rt, nil)
 		w := tg.GenValue(rt, im.ValOpts{Depth: rapid.IntRange(1, 4).Draw(rt, "depth")}, "v")
-		c := C01Case{CaseHeader: header(tg), W: w, WWire: Shuffle(rt, w, "shuf"), Plan: chunkio.GenPlan(rt, "plan")}
+		c := C01Case{CaseHeader: header(tg), W: w, WWire: Shuffle(rt, w, "shuf"), Plan: chunkio.GenPlan(rt, "plan"), NilEmpty: rapid.Bool().Draw(rt, "nil_empty")}
 		filled := tg.Fill(w)
 		d := ev.Digest([]byte(tg.Prog.SchemaJSON), []byte(tg.Key), refcodec.Encode(refcodec.Canon(w)))
 		nontriv := nontrivialValue(tg, w, filled)
